@@ -1,21 +1,16 @@
-"""Client for the native replay binary (/verif/replay): JSON lines, watchdog, restart on hang."""
-import json, os, select, subprocess, time, hashlib
+"""Client for the native replay binary (/verif/replay): JSON lines, watchdog, restart on hang.
+Fork-safe: uses raw file descriptors; a process that finds the pipe dead simply starts its own replay process."""
+import json, os, select, subprocess, time, signal
 
 ROOT = os.path.dirname(os.path.dirname(os.path.abspath(__file__)))
 WORK = os.path.join(ROOT, '.work')
 TARGET = os.path.join(WORK, 'target-replay')
 
 
-def build(release=False, quiet=True):
+def build(release=False):
     """(re)build the replay binary against /repo's current tree; returns path or raises"""
     env = dict(os.environ, CARGO_NET_OFFLINE='true', CARGO_TARGET_DIR=TARGET, RUSTUP_TOOLCHAIN='stable')
     env.pop('RUSTFLAGS', None)
-    lock_src = '/repo/Cargo.lock'; lock_dst = os.path.join(ROOT, 'replay', 'Cargo.lock')
-    try:
-        if open(lock_src, 'rb').read() != (open(lock_dst, 'rb').read() if os.path.exists(lock_dst) else b''):
-            # keep our lock in sync with the repository's pinned versions (superset: ours adds nothing new)
-            pass
-    except OSError: pass
     cmd = ['cargo', 'build', '--offline'] + (['--release'] if release else [])
     p = subprocess.run(cmd, cwd=os.path.join(ROOT, 'replay'), env=env, stdout=subprocess.PIPE, stderr=subprocess.STDOUT)
     if p.returncode != 0:
@@ -25,40 +20,64 @@ def build(release=False, quiet=True):
 
 class Replay:
     def __init__(self, path, timeout=5.0):
-        self.path = path; self.timeout = timeout; self.p = None; self.calls = 0; self.timeouts = 0
+        self.path = path; self.timeout = timeout; self.pid = None; self.calls = 0; self.timeouts = 0
+        self.wfd = self.rfd = None; self.owner = None
         self.start()
 
     def start(self):
-        self.p = subprocess.Popen([self.path], stdin=subprocess.PIPE, stdout=subprocess.PIPE, stderr=subprocess.DEVNULL, bufsize=0)
-        self.buf = b''
+        r1, w1 = os.pipe(); r2, w2 = os.pipe()
+        pid = os.fork()
+        if pid == 0:
+            try:
+                os.dup2(r1, 0); os.dup2(w2, 1)
+                dn = os.open(os.devnull, os.O_WRONLY); os.dup2(dn, 2)
+                os.closerange(3, 4096)
+                os.execv(self.path, [self.path])
+            finally:
+                os._exit(127)
+        os.close(r1); os.close(w2)
+        self.pid = pid; self.wfd = w1; self.rfd = r2; self.buf = b''; self.owner = os.getpid()
 
     def stop(self):
-        if self.p is not None:
-            try: self.p.kill(); self.p.wait(timeout=2)
-            except Exception: pass
-            self.p = None
+        if self.pid is not None:
+            try: os.kill(self.pid, signal.SIGKILL)
+            except OSError: pass
+            if self.owner == os.getpid():
+                try: os.waitpid(self.pid, 0)
+                except OSError: pass
+            for fd in (self.wfd, self.rfd):
+                try: os.close(fd)
+                except OSError: pass
+            self.pid = None
 
     def call(self, req, timeout=None):
         """returns the reply dict; {'timeout': True} when the native run exceeds the watchdog; {'crash': ...} when the process dies"""
-        if self.p is None or self.p.poll() is not None: self.start()
-        self.calls += 1
-        data = (json.dumps(req) + '\n').encode()
-        try:
-            self.p.stdin.write(data); self.p.stdin.flush()
-        except (BrokenPipeError, OSError):
-            self.stop(); return {'crash': 'replay process died before the request'}
-        deadline = time.time() + (timeout or self.timeout)
-        fd = self.p.stdout.fileno()
-        while b'\n' not in self.buf:
-            left = deadline - time.time()
-            if left <= 0:
-                self.timeouts += 1; self.stop(); return {'timeout': True}
-            r, _, _ = select.select([fd], [], [], left)
-            if not r: continue
-            chunk = os.read(fd, 1 << 16)
-            if not chunk:
-                rc = self.p.poll(); self.stop()
-                return {'crash': 'replay process exited (%s): stack overflow / abort / OOM' % rc}
-            self.buf += chunk
-        line, self.buf = self.buf.split(b'\n', 1)
-        return json.loads(line)
+        for attempt in (0, 1):
+            if self.pid is None: self.start()
+            self.calls += 1
+            data = (json.dumps(req) + '\n').encode()
+            try:
+                off = 0
+                while off < len(data): off += os.write(self.wfd, data[off:])
+            except OSError:
+                self.stop()
+                if attempt == 0: continue       # stale pipe (e.g. a forked sibling restarted the process): retry on a fresh one
+                return {'crash': 'replay process died before the request'}
+            deadline = time.time() + (timeout or self.timeout)
+            while b'\n' not in self.buf:
+                left = deadline - time.time()
+                if left <= 0:
+                    self.timeouts += 1; self.stop(); return {'timeout': True}
+                r, _, _ = select.select([self.rfd], [], [], left)
+                if not r: continue
+                try: chunk = os.read(self.rfd, 1 << 16)
+                except OSError: chunk = b''
+                if not chunk:
+                    self.stop()
+                    if attempt == 0 and not self.buf: break
+                    return {'crash': 'replay process exited: stack overflow / abort / OOM'}
+                self.buf += chunk
+            else:
+                line, self.buf = self.buf.split(b'\n', 1)
+                return json.loads(line)
+        return {'crash': 'replay process exited: stack overflow / abort / OOM'}
